@@ -87,6 +87,8 @@ func (w *world) stepHeight(forceTxs int) {
 		g := (*genTx)(nil)
 		if w.dex != nil && w.dex.on && t.Chance(3, 5) {
 			g = w.genDexTx(ups[0])
+		} else if w.msig != nil && t.Chance(1, 5) {
+			g = w.genMultisigTx(ups[0])
 		} else if (c.Prop == "C05" || c.Prop == "C06") && t.Chance(1, 3) {
 			g = w.genRLPTx(ups[0])
 		} else if w.govEnabled() && t.Chance(1, 6) {
@@ -113,6 +115,9 @@ func (w *world) stepHeight(forceTxs int) {
 	if (c.Prop == "C07" || c.Prop == "C03" || c.Prop == "C11" || c.Prop == "C04") && t.Chance(1, 3) {
 		// the last arrival before the proposal is built pays the highest fee and fails in its handler
 		w.submit(w.genFailingTx(ups[0]))
+	}
+	if w.msig != nil && t.Chance(1, 2) {
+		w.resubmitBelowThreshold()
 	}
 	if c.Prop == "C05" && t.Chance(1, 2) {
 		w.authCombo([]*genTx{w.genTx(ups[0]), w.genTx(ups[0]), w.genTx(ups[0]), w.genTx(ups[0])})
